@@ -367,9 +367,24 @@ func init() {
 		cycles := e.p("cycles", 1+r.Intn(3))
 		for c := 0; c < cycles; c++ {
 			n := 1 + r.Intn(6)
+			var clock joiner
+			if e.expiry > 0 && r.Intn(2) == 0 {
+				// the expiry elapses while jobs are being dispatched: the reaper and the dispatcher
+				// go for the same idle nodes
+				clock.goClient("clock", func() {
+					for k := 2 + r.Intn(5); k > 0; k-- {
+						vt.Yield()
+						vt.ForceTick()
+					}
+				})
+			}
 			for i := 0; i < n; i++ {
 				e.add(q, 0, oOK, false, "")
+				if e.expiry > 0 && r.Intn(2) == 0 {
+					vt.Yield()
+				}
 			}
+			clock.wait()
 			if r.Intn(2) == 0 {
 				e.lifecycle("TunePool", 1+r.Intn(5))
 			}
